@@ -642,8 +642,13 @@ def describe(src, edit, toks, sub_lines):
     return ("default-gap", shape, ctx)
 
 
-def signature(src, edits, tree):
-    """(sorted tuple of distinct (rule, shape, context), per-edit details)."""
+def signature(src, edits, tree, probe=None):
+    """(sorted tuple of distinct (rule, shape, context), per-edit details).
+
+    `probe(text) -> bool` (optional): is this logical line, parsed on its own, a command?  The line numbers of
+    xonsh's tree are not reliable (every statement after a command line that holds a multi-line string literal is
+    reported one line too low), so a statement that the tree's line numbers do not show as a command is asked
+    about directly before an edit in it is called an edit of Python text."""
     if src and not src.endswith("\n"):
         src += "\n"
     try:
@@ -651,6 +656,15 @@ def signature(src, edits, tree):
     except Exception:  # noqa: BLE001
         return (("untokenisable-source", "?", "?"),), []
     sub = subproc_lines(tree)
+    if probe is not None:
+        asked = {}
+        for e in edits:
+            for t in _tok_at(toks, e[0], e[1]):
+                if t is None or t.sline in sub or t.sline in asked:
+                    continue
+                line = [k for k in toks if k.sline == t.sline and k.type != _mods().COMMENT]
+                asked[t.sline] = bool(line) and bool(probe(src[line[0].a:line[-1].b]))
+        sub |= {ln for ln, yes in asked.items() if yes}
     det = []
     for e in edits:
         r = describe(src, e, toks, sub)
